@@ -63,7 +63,12 @@ type bankT2 struct {
 func driveBankOps(c *driverCtx, run int) {
 	key := fmt.Sprintf("C10|bankops|run%d", run)
 	c.rec.NewCase()
-	types := []reflect.Type{reflect.TypeOf(bankT1{}), reflect.TypeOf(bankT2{}), reflect.TypeOf(int64(0)), reflect.TypeOf([40]byte{})}
+	// types with and without pointers, sizes that are and are not multiples of the word size
+	types := []reflect.Type{reflect.TypeOf(bankT1{}), reflect.TypeOf(bankT2{}), reflect.TypeOf(int64(0)), reflect.TypeOf([40]byte{}),
+		reflect.TypeOf(int32(0)), reflect.TypeOf([13]byte{}), reflect.TypeOf(struct{ A, B, C int32 }{}), reflect.TypeOf(int16(0)), reflect.TypeOf(struct {
+			A int64
+			B bool
+		}{})}
 	type bankH struct {
 		id   int
 		rb   *avro.ResourceBank
